@@ -204,7 +204,12 @@ func runExpire(c *ECase) runResult {
 		}
 		ocancel()
 		if err != nil {
-			return err
+			select {
+			case e := <-done:
+				return fmt.Errorf("%v (server side: %v)", err, e)
+			case <-time.After(200 * time.Millisecond):
+				return fmt.Errorf("%v (server side still waiting for the request)", err)
+			}
 		}
 		select {
 		case e := <-done:
@@ -271,8 +276,10 @@ func runExpire(c *ECase) runResult {
 			}
 			r0 := len(g.r.snapshot())
 			g.sconn.SetWriteDeadline(time.Now().Add(5 * time.Second))
-			if _, err := g.sconn.Write(fr); err != nil {
-				return runResult{status: "inconclusive", detail: "write: " + err.Error()}
+			_, werr := g.sconn.Write(fr)
+			g.sconn.SetWriteDeadline(time.Time{}) // the server channel objects write on this connection later
+			if werr != nil {
+				return runResult{status: "inconclusive", detail: "write: " + werr.Error()}
 			}
 			if !g.r.waitFor(func(evs []Ev) bool { return hasRet(evs[r0:]) }, 10*time.Second) {
 				return runResult{status: "violation", key: "c17:receiver-silent", detail: fmt.Sprintf("no reaction to an injected chunk (step %d); %v", i, log)}
